@@ -210,3 +210,30 @@ def flows_to_return(fnode, name: str) -> bool:
     if isinstance(r, ast.Return) and r.value is not None and any(isinstance(n, ast.Name) and n.id in dep for n in ast.walk(r.value)):
       return True
   return False
+
+
+def replace_exprs(stmts, mapping: typing.Dict[str, str]):
+  """Clones of the statements with every expression whose source text is a key of `mapping`
+  replaced by the Name given (longest keys first, outermost match wins)."""
+  keys = sorted(mapping, key=len, reverse=True)
+
+  class R(ast.NodeTransformer):
+    def generic_visit(self, node):
+      if isinstance(node, ast.expr):
+        t = unparse(node)
+        for k in keys:
+          if t == k:
+            return ast.copy_location(ast.Name(id=mapping[k], ctx=getattr(node, "ctx", ast.Load())), node)
+      return super().generic_visit(node)
+
+    def visit(self, node):
+      if isinstance(node, ast.expr):
+        t = unparse(node)
+        for k in keys:
+          if t == k:
+            return ast.copy_location(ast.Name(id=mapping[k], ctx=getattr(node, "ctx", ast.Load())), node)
+      return super().visit(node)
+  out = []
+  for st in stmts:
+    out.append(ast.fix_missing_locations(R().visit(_clone(st))))
+  return out
